@@ -29,7 +29,8 @@ func (gs GenesisState) Validate() error {
 	allowedBidderIndexMap := make(map[string]struct{})
 
 	for _, elem := range gs.AllowedBidderList {
-		index := fmt.Sprint(elem.AuctionId)
+		// an allowed bidder is stored under (auction id, bidder)
+		index := fmt.Sprint(elem.AuctionId, "/", elem.Bidder)
 		if _, ok := allowedBidderIndexMap[index]; ok {
 			return fmt.Errorf("duplicated index for allowedBidder")
 		}
@@ -43,7 +44,8 @@ func (gs GenesisState) Validate() error {
 	vestingQueueIndexMap := make(map[string]struct{})
 
 	for _, elem := range gs.VestingQueueList {
-		index := fmt.Sprint(elem.AuctionId)
+		// a vesting queue is stored under (auction id, release time)
+		index := fmt.Sprint(elem.AuctionId, "/", elem.ReleaseTime.UnixNano())
 		if _, ok := vestingQueueIndexMap[index]; ok {
 			return fmt.Errorf("duplicated index for vestingQueue")
 		}
@@ -54,12 +56,14 @@ func (gs GenesisState) Validate() error {
 		}
 	}
 	// Check for duplicated ID in bid
-	bidIdMap := make(map[uint64]bool)
+	// a bid is stored under (auction id, bid id); bid ids restart at 1 in every auction
+	bidIdMap := make(map[[2]uint64]bool)
 	for _, elem := range gs.BidList {
-		if _, ok := bidIdMap[elem.Id]; ok {
+		bidIndex := [2]uint64{elem.AuctionId, elem.Id}
+		if _, ok := bidIdMap[bidIndex]; ok {
 			return fmt.Errorf("duplicated id for bid")
 		}
-		bidIdMap[elem.Id] = true
+		bidIdMap[bidIndex] = true
 
 		if err := elem.Validate(); err != nil {
 			return err
